@@ -303,7 +303,7 @@ MC_SENSITIVITY = {
     'C05': ['MC_C05_asisD1'],
     'C06': ['MC_C05_asisD1'],
     'C16': ['MC_C16_asisD4'],
-    'C12': ['MCConc_asis', 'MCConc_asis_lin'],
+    'C12': ['MCConc_asis', 'MCConc_asis_lin', 'MCConc_asis_D17'],
 }
 
 def run_mc(stems, tier, work, prop=None):
@@ -768,6 +768,16 @@ def run_conc(prop, tier, seed, t0):
         n = normalize.normalize_conc_file(raw, norm, sites)
         r = lib.validate_generic('TraceCore.tla', 'TraceCore.cfg', norm, work, 'v%d' % i)
         r['events'] = n
+        r['hist'] = {}
+        bad = {v['seg'] for v in r.get('viol', [])}
+        if bad:      # schedules are sampled: keep the recorded linearization of a rejected segment with its replay file
+            cur = None
+            for line in open(norm):
+                e = json.loads(line)
+                if e.get('e') == 'Seg':
+                    cur = e['id']
+                elif cur in bad:
+                    r['hist'].setdefault(cur, []).append('%s %s reps=%s q=%s acc=%s' % (e.get('e'), e.get('a'), [(x.get('kind'), x.get('ent')) for x in e.get('reps', [])], e.get('q'), e.get('acc')))
         return r
     with cf.ThreadPoolExecutor(nch) as ex:
         res = list(ex.map(one, range(nch)))
@@ -777,14 +787,19 @@ def run_conc(prop, tier, seed, t0):
     known = lib.load_known()
     viols = [v for r in res for v in r['viol']]
     by_seg, nviol, out_lines = {}, 0, []
+    kf_seen = {}
     for v in viols:
         ks = [kf for kf in known.get('open', []) if known_match(kf, prop, v, by_id.get(v['seg'], []))]
         if ks:
-            print('KNOWN-FINDING: property=C12 %s (%s; segment %s)' % (ks[0]['id'], ks[0]['what'], v['seg']))
+            kf_seen.setdefault(ks[0]['id'], (ks[0], []))[1].append(v['seg'])
             continue
         by_seg.setdefault(v['seg'], []).append(v)
+    for kid, (kf, sg) in kf_seen.items():
+        print('KNOWN-FINDING: property=C12 %s %s (seen in %d sampled schedules, e.g. segment %s)' % (kid, kf['what'][:400], len(sg), sg[0]))
     for sid, vs in list(by_seg.items())[:10]:
-        path = replay_file('C12', sid, by_id.get(sid, []), vs, 'concurrent segment: re-run with build/conc-*/drv_conc <this file> out.ndjson <seed>; schedules are sampled')
+        hist = next((r['hist'][sid] for r in res if sid in r.get('hist', {})), [])
+        path = replay_file('C12', sid, by_id.get(sid, []), vs, 'concurrent segment: re-run with build/conc-*/drv_conc <this file> out.ndjson <seed>; schedules are sampled; '
+                           'recorded linearization (critical sections in lock-ticket order):\n#   ' + '\n#   '.join(hist))
         out_lines.append('VIOLATION property=C12 replay=%s' % path); nviol += 1
     nviol += max(0, len(by_seg) - 10)
     # the repository's own threading stress test (thread_terror.cpp) under ThreadSanitizer: 13 threads creating mocks,
